@@ -254,7 +254,6 @@ namespace occa {
 
         expr blockIterator(declVarSource, blockIter);
         expr iterator(*oklForSmnt.iterator);
-        expr tileSizeExpr = &tileSize;
 
         initDecls.push_back(
           variableDeclaration(*oklForSmnt.iterator,
@@ -264,10 +263,13 @@ namespace occa {
         // Create check statement
         // Note: At this point, the tile for-loop has an update
         //       with either an [+=] or [-=] update operator
+        //       whose right-hand side is the distance covered by one tile:
+        //       TILE or ((TILE) * (INC))
+        expr blockIncrement = expr::parens(expr(updateExpr.rightValue));
         expr bounds = expr::parens(
           (updateExpr.opType() & operatorType::addEq)
-          ? blockIterator + tileSizeExpr
-          : blockIterator - tileSizeExpr
+          ? blockIterator + blockIncrement
+          : blockIterator - blockIncrement
         );
 
         const binaryOperator_t &checkOp = (const binaryOperator_t&) checkExpr.op;
